@@ -9,6 +9,8 @@ PROGRAMS = {
     "random": "import random\n\nn = random.random()\nflag = any([x for x in range(3)])\n",
     "xml": "from xml.etree.ElementTree import parse\n\net = parse('some.xml')\nassert (1, 'x')\n",
     "pickle": "import pickle\n\nobj = pickle.load(open('p', 'rb'))\ns = set(['a'])\n",
+    # two codemods that need the same package (security)
+    "both": 'import requests\nimport subprocess\n\nresp = requests.get("http://example.com")\nsubprocess.run("ls -l")\nvalues = set([1, 2])\n',
     "plain": "def f(v=[]):\n    return any([i for i in v])\n\nx = set([1, 2])\n",
 }
 # codemods that have a trigger in each program, in a sensible execution order
@@ -19,6 +21,7 @@ TRIGGERS = {
     "random": ["pixee:python/secure-random", "pixee:python/use-generator"],
     "xml": ["pixee:python/use-defusedxml", "pixee:python/fix-assert-tuple"],
     "pickle": ["pixee:python/harden-pickle-load", "pixee:python/use-set-literal"],
+    "both": ["pixee:python/url-sandbox", "pixee:python/sandbox-process-creation", "pixee:python/use-set-literal"],
     "plain": ["pixee:python/fix-mutable-params", "pixee:python/use-generator", "pixee:python/use-set-literal"],
 }
 DEP_ADDING = {"pixee:python/url-sandbox", "pixee:python/sandbox-process-creation", "pixee:python/use-defusedxml", "pixee:python/harden-pickle-load"}
